@@ -47,6 +47,19 @@ theorem no_pending_comment (ss : List Stmt) (h : ∀ s ∈ ss, s.wf = true) : (r
   | cons s ss ih =>
     exact ih (fun x hx => h x (List.mem_cons_of_mem _ hx)) _ (FileProofs.applyStmt_pending m s hp)
 
+/-- a comment statement, on one line or over several, read where the reader can recognise it (see `FileStmt.okIn`: for a text over
+several lines the frame / identifier / ECU it names must be known at that point), gives the comment to its object -/
+theorem comment_statement_effect (m : RMatrix) (h : CmHead) (text : Str) (hm : m.pending = none)
+    (hok : (FileStmt.cm h text).okIn m = true) :
+    (cmLines h text).foldl stepFile m = applyItem m (.cm h text) :=
+  FileProofs.fold_cm m h text hm hok
+
+/-- the whole file with comments over several lines among the statements: any sequence, any length; the follow-up state is left
+again after every comment -/
+theorem file_with_comments_is_fold (fs : List FileStmt) (hok : okFile {} fs = true) :
+    readFile (writeFile fs) = fs.foldl FileStmt.apply {} :=
+  FileProofs.read_file fs {} rfl hok
+
 /-- C20 at file level: skipped lines (unknown keyword, only blanks, a pattern that fails behind a guard) anywhere between the
 statements change nothing -/
 theorem skipped_lines_ignored (isBad : Str → Bool) (hbad : ∀ b, isBad b = true → scanLine b = .skip)
@@ -59,6 +72,20 @@ theorem skipped_lines_ignored (isBad : Str → Bool) (hbad : ∀ b, isBad b = tr
 theorem error_line_only_counted (m : RMatrix) (b : Str) (hm : m.pending = none) (hb : scanLine b = .error) :
     stepFile m b = { m with errors := m.errors + 1 } :=
   FileProofs.step_error m b hm hb
+
+/-- the counter of printed errors is write-only: no step of the reader looks at it -/
+theorem errors_never_read (m : RMatrix) (k : Nat) (line : Str) :
+    stepFile { m with errors := m.errors + k } line = { stepFile m line with errors := (stepFile m line).errors + k } :=
+  FileProofs.stepFile_addErr m k line
+
+/-- C20 at file level, both fates of a bad line: lines that are skipped and lines whose handler raises on their form, scattered
+anywhere between the statements of a written file, change nothing but the number of printed errors - by exactly one per raising line -/
+theorem bad_lines_only_counted (isBad : Str → Bool) (hbad : ∀ b, isBad b = true → scanLine b = .skip ∨ scanLine b = .error)
+    (ls : List Str) (ss : List Stmt) (hl : ls.filter (fun l => !isBad l) = writeStmts ss) (h : ∀ s ∈ ss, s.wf = true) :
+    readFile ls = { readFile (writeStmts ss) with
+      errors := (readFile (writeStmts ss)).errors + (ls.filter fun l => isBad l && scanLine l == .error).length } := by
+  rw [file_is_fold_of_effects ss h]
+  exact FileProofs.read_with_bad isBad hbad ls ss hl h {} rfl
 
 /-- truncation between statements: the prefix is read as the state the complete file passes through -/
 theorem prefix_state (pre post : List Stmt) :
@@ -83,10 +110,30 @@ example : (readFile exFile).errors = 2 := by decide +kernel
 example : ((readFile exFile).frames.map fun f => f.sigs.map fun s => (s.sg.name, s.values)) =
     [[("Speed".toList, [(1, "one".toList), (0, "zero".toList)])]] := by decide +kernel
 example : (readFile exFile).defs.map (fun d => (d.name, d.default)) = [("Cycle".toList, some "100".toList)] := by decide +kernel
+/-- a file with comments written by `writeFile` (non-vacuity of `okFile`, and the result) -/
+def exStmts : List FileStmt :=
+  [.one (.bo ⟨291, "Engine".toList, 8, "ECU_A".toList⟩),
+   .cm (.bo 291) "first line \n\n  third \"quoted\" line".toList,
+   .cm (.bu "Nobody".toList) "one line for an unknown ECU".toList,
+   .one (.tx ⟨291, ["ECU_A".toList, "ECU_B".toList]⟩)]
+example : okFile {} exStmts = true := by decide +kernel
+example : (writeFile exStmts).map String.ofList =
+    ["BO_ 291 Engine: 8 ECU_A", "CM_ BO_ 291  \"first line ", "", "  third \\\"quoted\\\" line\";",
+     "CM_ BU_ Nobody \"one line for an unknown ECU\";", "BO_TX_BU_ 291 : ECU_A,ECU_B;"] := by decide +kernel
+example : (readFile (writeFile exStmts)).frames.map (fun f => (f.comment, f.transmitters)) =
+    [(some "first line \n\n  third \"quoted\" line".toList, ["ECU_A".toList, "ECU_B".toList])] := by decide +kernel
+/-- the hypothesis of `file_with_comments_is_fold` is needed: a comment over several lines for an ECU that is not listed is not recognised,
+its second line is read as a statement of its own (here: as a frame) -/
+example : okFile {} [.cm (.bu "Nobody".toList) "x\nBO_ 5 Ghost: 8 E1".toList] = false ∧
+    ((readFile (writeFile [.cm (.bu "Nobody".toList) "x\nBO_ 5 Ghost: 8 E1".toList])).frames.map fun f => f.name) = ["Ghost".toList] := by decide +kernel
 /-- the dispatcher keeps apart the kinds whose keywords begin alike -/
 example : scanLine "BA_DEF_DEF_ \"Cycle\" 100;".toList = .item (.defdef "Cycle".toList "100".toList) := by decide +kernel
 example : (Stmt.tx ⟨291, ["A1".toList, "B2".toList]⟩).wf = true := by decide
 example : (Stmt.tx ⟨291, ["A1".toList, "B2".toList]⟩).line = "BO_TX_BU_ 291 : A1,B2;".toList := by decide +kernel
+/-- bad lines of both kinds between the statements of `exFile`'s good part -/
+example : scanLine "FOO_ unknown keyword;".toList = .skip ∧ scanLine "BO_ 12x Name: 8 E1".toList = .error ∧
+    scanLine " SG_ cut : 0|8@1+ (1,".toList = .error ∧ scanLine "VAL_ 1 x 1 \"unterminated".toList = .skip ∧
+    scanLine "SG_MUL_VAL_ broken".toList = .skip ∧ scanLine "SIG_GROUP_ broken".toList = .error := by decide +kernel
 /-- a statement for a standard identifier above 0x7FF is refused as a whole (the identifier cannot be built) -/
 example : (readFile ["BO_ 4096 TooBig: 8 E1".toList]).frames = [] ∧ (readFile ["BO_ 4096 TooBig: 8 E1".toList]).errors = 1 := by decide +kernel
 
